@@ -32,6 +32,7 @@ META = {
 }
 META['bounds'].append('user symbols also parsed before their declaration (rejected), currency text before / after registration')
 META['bounds'].append('format / str / round trip over 5 sequences of equal-valued quantities x 3 specs; stdlib decimals with 35-41 digits, also under context precision 6')
+META['bounds'].append('user symbols not stable under Unicode normalisation (U+2126, U+212B, U+212A, e + U+0301)')
 
 
 def setup(mode):
